@@ -282,3 +282,40 @@ Theorem C07_satisfiable :
         /\ ~ unneeded_raw toyH a' (new_raw o c)).
 Proof. exact hyps_satisfiable. Qed.
 Print Assumptions C07_satisfiable.
+
+(* ---- cross-model consistency C07 x C15 (proofs/CrossModelIdentMeta.v): the two
+   remaining kinds, instantiated with the manifests of model/Meta.v.
+   ExtID: whenever git_objects.extid_git_object yields a manifest m (it raises
+   UnicodeEncodeError for non-ASCII type strings: then nothing is built, in
+   either model), the object built without id carries H m, which is Meta's own
+   extid_id; it passes check; it has no SWHID.  [extid_attrs e] is [Some m]
+   exactly when extid_git_object e = Ok m. *)
+From SWH.model Require Meta.
+From SWH.proofs Require Import CrossModelIdentMeta.
+
+Theorem C07_init_id_extid : forall (H : bytes -> bytes) (e : Meta.extid) (m : bytes),
+  Meta.extid_git_object e = Meta.Ok m ->
+  exists o, construct H KExtID (extid_attrs e) None [] = Ok o
+    /\ h_id o = H m
+    /\ Meta.extid_id H e = Meta.Ok (h_id o)
+    /\ compute_hash H o = Ok (h_id o)
+    /\ check H o = Ok tt
+    /\ swhid_tag (h_kind o) = None
+    /\ swhid o = Err AttributeError.
+Proof. exact init_id_extid. Qed.
+Print Assumptions C07_init_id_extid.
+
+(* RawExtrinsicMetadata: the object built without id carries H of Meta's
+   manifest of its fields, which is Meta's emd_id - also of the object the
+   constructor returns after normalising the discovery date; it passes check;
+   its SWHID type is emd. *)
+Theorem C07_init_id_emd : forall (H : bytes -> bytes) (md : Meta.emd),
+  exists o, construct H KRawExtrinsicMetadata (Some (Meta.emd_git_object md)) None [] = Ok o
+    /\ h_id o = H (Meta.emd_git_object md)
+    /\ h_id o = Meta.emd_id H md
+    /\ (forall a, Meta.mk_emd md = Meta.Ok a -> h_id o = Meta.emd_id H a)
+    /\ compute_hash H o = Ok (h_id o)
+    /\ check H o = Ok tt
+    /\ swhid_tag (h_kind o) = Some (bs "emd").
+Proof. exact init_id_emd. Qed.
+Print Assumptions C07_init_id_emd.
